@@ -1,0 +1,42 @@
+//go:build verif
+
+// Contracts for the deductive checks under /verif (comment-only; no code).
+
+package balanced
+
+// ---- C07: shape and bookkeeping of the balanced layout ---------------------------------------
+// fillNodeRec(db, node, depth) fills node with children until it has maxlinks of them or the data
+// ends; at depth 1 the children are leaves, otherwise sub-trees built one level further down; the
+// size it reports is the size the node recorded, which is the sum of the sizes its children reported.
+//@ func fillNodeRec
+//@   prop C07
+//@   arith int-assumed
+//@   requires db != nil && db.maxlinks >= 1
+//@   requires[room_left] node != nil ==> 0 <= childCount(node) && childCount(node) <= db.maxlinks
+//@   modifies childCount(node), recorded(node), exhausted(db)
+//@   loop 0 invariant[never_wider_than_the_dag] node != nil && 0 <= childCount(node) && childCount(node) <= db.maxlinks
+//@   loop 0 invariant[keeps_what_it_had] old(node) != nil ==> node == old(node) && childCount(node) >= old(childCount(node))
+//@   site[leaves_only_at_depth_one] call:NewLeafDataNode : depth == 1
+//@   site[sub_trees_one_level_down] call:fillNodeRec : depth > 1 && arg2 == depth - 1 && arg1 == nil
+//@   site[child_recorded_with_its_own_size] call:FSNodeOverDag.AddChild : arg0 == node && arg1 == childNode && arg2 == childFileSize
+//@   ensures[at_most_width_children] err == nil && old(node) != nil ==> childCount(old(node)) <= db.maxlinks
+//@   ensures[full_or_out_of_data] err == nil && old(node) != nil ==> childCount(old(node)) == db.maxlinks || exhausted(db)
+//@   ensures[reports_the_recorded_size] err == nil && old(node) != nil ==> nodeFileSize == recorded(old(node))
+//@   ensures[depth_checked] depth < 1 ==> err != nil
+
+// layoutData: each round puts the tree built so far under a new root as its first child and fills
+// the rest of that root one level deeper than before
+//@ func layoutData
+//@   prop C07
+//@   arith int-assumed
+//@   requires db != nil && db.maxlinks >= 1
+//@   modifies all
+//@   loop 0 invariant[depth_counts_up_from_one] depth >= 1
+//@   site[old_root_becomes_first_child] call:FSNodeOverDag.AddChild : childCount(arg0) == 0 && arg1 == root && arg2 == fileSize
+//@   site[fills_the_new_root_at_the_next_depth] call:fillNodeRec : arg2 == depth && depth >= 1 && childCount(arg1) == 1
+
+//@ func Layout
+//@   prop C07
+//@   arith int
+//@   requires db != nil && db.maxlinks >= 1
+//@   modifies all
